@@ -64,6 +64,10 @@ mod storage;
 mod transaction_manager;
 mod version_manager;
 
+/// Verification hooks (see /verif, C06/C18); compiled only with `--cfg risinglight_verif`.
+#[cfg(risinglight_verif)]
+pub mod verif_hooks;
+
 const MANIFEST_FILE_NAME: &str = "manifest.json";
 
 #[cfg(test)]
